@@ -87,6 +87,8 @@ def ops_for(model):
             'TOTAL=1': ('calc', {name_id(B, 'BLOCK_TOTAL'): 1}, {k('E1'): ('n', 1.0)}, None),
             'GROSS=200': ('calc', {name_id(B, 'GROSS'): 200}, {'NAME:%s|GROSS' % B: ('n', 200.0)}, None),
             'C2=1>E4': ('calc', {i(B, 'S', 'C2'): 1}, {k('C2'): ('n', 1.0)}, [i(B, 'S', 'E4')]),
+            'G5=2>H1': ('calc', {i(B, 'S', 'G5'): 2}, {k('G5'): ('n', 2.0)}, [i(B, 'S', 'H1')]),
+            'G2=9,G5=2>H1,H2': ('calc', {i(B, 'S', 'G2'): 9, i(B, 'S', 'G5'): 2}, {k('G2'): ('n', 9.0), k('G5'): ('n', 2.0)}, [i(B, 'S', 'H1'), i(B, 'S', 'H2')]),
             'compile': ('compile', [i(B, 'S', 'A1:C2')], blk, [i(B, 'S', 'E2'), i(B, 'S', 'E3')], [[[10, 20, 30], [40, 50, 60]]]),
             'compile-G': ('compile', [i(B, 'S', 'G3')], {k('G3'): ('n', 11.0)}, [i(B, 'S', 'H1'), i(B, 'S', 'H2')], [11]),
             'to_dict': ('to_dict',), 'write': ('write',), 'deepcopy': ('deepcopy',),
@@ -109,7 +111,27 @@ def ops_for(model):
             'compile': ('compile', [i(B, 'S', 'A1')], {k('A1'): ('n', 7.0)}, [i(B, 'S', 'D1'), i(B, 'S', 'D2')], [7]),
             'to_dict': ('to_dict',), 'write': ('write',), 'deepcopy': ('deepcopy',),
         }
+    if model == 'r':
+        return {
+            'calc': ('calc', {}, {}, None),
+            'A1=2': ('calc', {RP + 'A1': 2}, {}, None),
+            'A1=-1': ('calc', {RP + 'A1': -1}, {}, None),
+            'B6=x': ('calc', {RP + 'B6': 'x'}, {}, None),
+            'A1=3>E1': ('calc', {RP + 'A1': 3}, {}, [RP + 'E1', RP + 'E2']),
+            'compile': ('compile', [RP + 'A1'], {}, [RP + 'E1', RP + 'E4'], [5]),
+            'to_dict': ('to_dict',), 'write': ('write',), 'deepcopy': ('deepcopy',),
+        }
     raise ValueError(model)
+
+
+# model r: written as a raw dictionary (array constants holding empty text, a blank cell read through a range and alone): there is
+# no reference evaluator for it, so every operation is judged only against the same operation on a freshly built model
+RP = "'[b.xlsx]S'!"
+RAW_R = {
+    RP + 'A1': 1, RP + 'B1:D1': '={"a","","c"}', RP + 'E1': '=LEN(%sC1)+%sA1' % (RP, RP), RP + 'E2': '=%sB1&%sC1&%sD1' % (RP, RP, RP),
+    RP + 'B3:C4': '=IF(%sA1>0,{"","x";1,""},0)' % RP, RP + 'E3': '=COUNTA(%sB3:C4)+COUNTBLANK(%sB3:C4)*10' % (RP, RP), RP + 'E4': '=%sC3&"|"&%sB3&"|"&%sA1' % (RP, RP, RP),
+    RP + 'B5': 4, RP + 'E5': '=SUM(%sB5:B8)&"/"&ISBLANK(%sB6)&"/"&%sB7' % (RP, RP, RP), RP + 'E6': '=IF(%sB6="",1,2)+%sA1' % (RP, RP),
+}
 
 
 # Overriding PART of an array-formula block is not an Excel operation ("You cannot change part of an array"): what a reader of
@@ -127,15 +149,16 @@ def lib_value(v):
 
 def fresh(model):
     from xl import wbspec as X
+    if model == 'r':
+        import formulas
+        return formulas.ExcelModel().from_dict(dict(RAW_R))
     return X.model_from_dict(M.MODELS[model]())
 
 
 def apply(m, model, name):
     """-> (model to continue with, observable result)"""
     from xl import wbspec as X
-    spec = M.MODELS[model]()
     o = ops_for(model)[name]
-    keys = list(spec['cells']) + [k for k in spec['arrays']]
     if o[0] == 'calc':
         inputs = {k: lib_value(v) for k, v in o[1].items()}
         sol = m.calculate(inputs, o[3]) if o[3] else m.calculate(inputs)
@@ -158,8 +181,11 @@ def observe(model, name, res):
     """canonical, comparable form of an operation's result."""
     from xl import wbspec as X
     from xl.evalcell import classify_array
-    spec = M.MODELS[model]()
     kind, val = res
+    if model == 'r' and kind == 'sol':
+        import numpy as np
+        return {k: str(classify_array(np.asarray(v.value, object))) for k, v in val.items() if isinstance(k, str) and k.startswith(RP) and hasattr(v, 'value')}
+    spec = M.MODELS[model]() if model != 'r' else None
     if kind == 'sol':
         o = ops_for(model)[name]
         keys = list(spec['cells']) + [k for ak in spec['arrays'] for k in spill_keys(ak)] + [k for k in (o[2] if len(o) > 2 else {}) if k not in spec['cells'] and not k.startswith('NAME:')]
@@ -180,6 +206,8 @@ def spill_keys(ak):
 def reference(model, name):
     from ref import wbeval as W
     o = ops_for(model)[name]
+    if model == 'r':
+        return None
     spec = M.MODELS[model]()
     try:
         if o[0] in ('calc', 'compile'):
@@ -254,7 +282,7 @@ def run(ctx):
     cap = 400 if ctx.tier == 'quick' else 300    # frontier histories expanded per level and model (reported if hit)
     closed, capped = {}, {}
     states_total = 0
-    for model in M.MODELS:
+    for model in list(M.MODELS) + ['r']:
         names = list(ops_for(model))
         seen = set()
         frontier = [[]]
@@ -278,4 +306,4 @@ def run(ctx):
         states_total += len(seen)
     return {'states': states_total, 'horizon': horizon,
             'frontier_emptied': {k: v[0] for k, v in closed.items()}, 'depth_reached': {k: v[1] for k, v in closed.items()},
-            'frontier_cap_hit': capped, 'alphabet': {m: list(ops_for(m)) for m in M.MODELS}}
+            'frontier_cap_hit': capped, 'alphabet': {m: list(ops_for(m)) for m in list(M.MODELS) + ['r']}}
